@@ -4,6 +4,7 @@
 package famgen
 
 import (
+	"fmt"
 	"strconv"
 	"strings"
 )
@@ -121,7 +122,10 @@ var Lexical = []Family{
 	{"late_syntax_error", func(n int) string { return "SELECT " + rep("a, ", n) + "FROM FROM" }},
 	{"garbage_words", func(n int) string { return rep("foo bar ", n) }},
 	{"not_chain_over_limit", func(n int) string { return "SELECT " + rep("NOT ", n) + "a" }},
-	{"parens_over_limit", func(n int) string { k := n / 2; return "SELECT " + strings.Repeat("(", k) + "1" + strings.Repeat(")", k) }},
+	{"parens_over_limit", func(n int) string {
+		k := n / 2
+		return "SELECT " + strings.Repeat("(", k) + "1" + strings.Repeat(")", k)
+	}},
 	{"non_ascii", func(n int) string { return "SELECT " + rep("'é😀', ", n) + "1" }},
 	{"crlf_lines", func(n int) string { return "SELECT\r\n" + rep("a,\r\n", n) + "b FROM t" }},
 	// chains that alternate between operators of one precedence level
@@ -129,7 +133,9 @@ var Lexical = []Family{
 	{"mixed_multiplicative_chain", func(n int) string { return "SELECT " + rep("a * a / a % ", n) + "a" }},
 	{"mixed_json_chain", func(n int) string { return "SELECT a " + rep("-> 'k' ->> 'j' #> 'p' ", n) }},
 	{"mixed_comparison_and_or", func(n int) string { return "SELECT 1 FROM t WHERE " + rep("a = 1 AND b <> 2 OR ", n) + "c" }},
-	{"mixed_set_operations", func(n int) string { return rep("SELECT a FROM t UNION SELECT a FROM u UNION ALL SELECT a FROM v EXCEPT ", n) + "SELECT a FROM w" }},
+	{"mixed_set_operations", func(n int) string {
+		return rep("SELECT a FROM t UNION SELECT a FROM u UNION ALL SELECT a FROM v EXCEPT ", n) + "SELECT a FROM w"
+	}},
 	{"mixed_cast_subscript_chain", func(n int) string { return "SELECT a" + rep("::int[1]", n) }},
 	// long lexemes: close to the byte limit while still under the token limit
 	{"long_identifiers_list", func(n int) string { return "SELECT " + repIndexed("a_rather_long_column_name_{i}, ", n) + "z FROM t" }},
@@ -137,7 +143,9 @@ var Lexical = []Family{
 	{"wide_statements", func(n int) string {
 		return repIndexed("INSERT INTO some_table_name_{i} (first_column_name, second_column_name) VALUES ('a fairly long literal value number {i}', 'and another one of similar length');\n", n)
 	}},
-	{"long_comment_lines", func(n int) string { return repIndexed("-- a comment line that goes on for a while, number {i}\nSELECT {i};\n", n) }},
+	{"long_comment_lines", func(n int) string {
+		return repIndexed("-- a comment line that goes on for a while, number {i}\nSELECT {i};\n", n)
+	}},
 	// every repetition a different lexeme
 	{"distinct_identifiers", func(n int) string { return "SELECT " + repIndexed("col{i}, ", n) + "z FROM t" }},
 	{"distinct_qualified", func(n int) string { return "SELECT " + repIndexed("t{i}.c{i}, ", n) + "z FROM t" }},
@@ -146,17 +154,49 @@ var Lexical = []Family{
 	{"distinct_unclosed_dollar_tags", func(n int) string { return "SELECT c FROM t WHERE a IN (" + repIndexed("$p{i}$, ", n) + "1)" }},
 	{"distinct_dollar_quoted", func(n int) string { return "SELECT " + repIndexed("$t{i}$x$t{i}$, ", n) + "1" }},
 	{"distinct_identifiers_with_dollar", func(n int) string { return "SELECT " + repIndexed("col$a{i}$x, ", n) + "z FROM t" }},
-	{"distinct_placeholders", func(n int) string { return "SELECT 1 FROM t WHERE a IN (" + repIndexed("${i}, :p{i}, @v{i}, ", n) + "?)" }},
+	{"distinct_placeholders", func(n int) string {
+		return "SELECT 1 FROM t WHERE a IN (" + repIndexed("${i}, :p{i}, @v{i}, ", n) + "?)"
+	}},
 	{"distinct_functions", func(n int) string { return "SELECT " + repIndexed("fn{i}(a), ", n) + "1" }},
 	{"distinct_tables_joined", func(n int) string { return "SELECT 1 FROM t0" + repIndexed(" JOIN t{i} ON t{i}.a = t0.a", n) }},
 	{"distinct_aliases", func(n int) string { return "SELECT " + repIndexed("a AS x{i}, ", n) + "1 FROM t" }},
-	{"distinct_ctes", func(n int) string { return "WITH c AS (SELECT 1)" + repIndexed(", c{i} AS (SELECT {i})", n) + " SELECT 1" }},
+	{"distinct_ctes", func(n int) string {
+		return "WITH c AS (SELECT 1)" + repIndexed(", c{i} AS (SELECT {i})", n) + " SELECT 1"
+	}},
 	{"distinct_comments", func(n int) string { return "SELECT 1\n" + repIndexed("-- note {i}\n/* block {i} */\n", n) + "FROM t" }},
 	{"distinct_statements", func(n int) string { return repIndexed("SELECT c{i} FROM t{i} WHERE a = {i};\n", n) }},
 	{"distinct_numbers", func(n int) string { return "SELECT " + repIndexed("{i}.5, ", n) + "1" }},
 	{"distinct_keywords_misspelt", func(n int) string { return repIndexed("SELEC{i} FORM{i} ", n) }},
+	// two things growing together, or one lexeme growing next to many small ones
+	{"comments_after_long_indent", func(n int) string { return "SELECT a\n" + rep(" ", n/2) + rep("/*c*/", n/2) + "\nFROM t" }},
+	{"dollar_long_tag_dollars_in_body", func(n int) string {
+		tag := "$" + rep("a", n/3) + "$"
+		return "SELECT " + tag + rep("$", n/3) + " " + tag
+	}},
+	{"same_tag_dollar_strings", func(n int) string { return "SELECT " + rep("$$x y$$, ", n) + "1" }},
+	{"same_named_tag_dollar_strings", func(n int) string { return "SELECT " + rep("$q$x y$q$, ", n) + "1" }},
+	{"long_dotted_name", func(n int) string { return "SELECT * FROM a" + rep(".a", n) }},
+	{"cast_many_type_parameters", func(n int) string { return "SELECT CAST(a AS VARCHAR(" + rep("1,", n) + "1)) FROM t" }},
+	{"pg_cast_many_type_parameters", func(n int) string { return "SELECT a::NUMERIC(" + rep("1,", n) + "1) FROM t" }},
+	{"match_against_mode_words", func(n int) string { return "SELECT * FROM t WHERE MATCH (a) AGAINST ('x'" + rep(" a", n) + ")" }},
+	{"long_first_table_many_joins", func(n int) string { return "SELECT * FROM " + rep("x", n/2) + rep(" JOIN t ON a = b", n/2) }},
+	{"slice_chain", func(n int) string { return "SELECT a" + rep("[1:2]", n) + " FROM t" }},
+	{"subscript_slice_alternating_chain", func(n int) string { return "SELECT a" + rep("[1][1:2]", n) + " FROM t" }},
+	{"json_cast_alternating_chain", func(n int) string { return "SELECT a" + rep("->'k'::int", n) + " FROM t" }},
+	{"many_tautologies", func(n int) string { return "SELECT * FROM t WHERE " + rep("1 = 1 OR ", n) + "1 = 1" }},
+	{"many_union_null_probes", func(n int) string { return "SELECT a, b FROM t" + rep(" UNION SELECT NULL, NULL", n) }},
+	{"unparsable_aliased_from_lines", func(n int) string {
+		// text the parser rejects, every line with its own table and an alias of the same length
+		var sb strings.Builder
+		for i := 0; sb.Len() < n; i++ {
+			fmt.Fprintf(&sb, "SELECT x FROM t%07d AS a%07d WHERE ;\n", i, i)
+		}
+		return sb.String()
+	}},
 	// DDL, MERGE and the MySQL forms: wide lists inside one statement
-	{"create_table_columns", func(n int) string { return "CREATE TABLE t (" + repIndexed("c{i} INT NOT NULL DEFAULT {i}, ", n) + "z INT)" }},
+	{"create_table_columns", func(n int) string {
+		return "CREATE TABLE t (" + repIndexed("c{i} INT NOT NULL DEFAULT {i}, ", n) + "z INT)"
+	}},
 	{"create_table_constraints", func(n int) string {
 		return "CREATE TABLE t (a INT, " + repIndexed("CONSTRAINT k{i} CHECK (a <> {i}), ", n) + "PRIMARY KEY (a))"
 	}},
@@ -178,7 +218,9 @@ var Lexical = []Family{
 	{"merge_insert_values", func(n int) string {
 		return "MERGE INTO t USING s ON t.a = s.a WHEN NOT MATCHED THEN INSERT VALUES (" + repIndexed("s.c{i}, ", n) + "1)"
 	}},
-	{"replace_rows", func(n int) string { return "REPLACE INTO t (a, b) VALUES " + repIndexed("({i}, 'v{i}'), ", n) + "(0, 'z')" }},
+	{"replace_rows", func(n int) string {
+		return "REPLACE INTO t (a, b) VALUES " + repIndexed("({i}, 'v{i}'), ", n) + "(0, 'z')"
+	}},
 	{"on_duplicate_key_assignments", func(n int) string {
 		return "INSERT INTO t (a) VALUES (1) ON DUPLICATE KEY UPDATE " + repIndexed("c{i} = c{i} + 1, ", n) + "z = 0"
 	}},
@@ -187,8 +229,12 @@ var Lexical = []Family{
 	}},
 	{"returning_list", func(n int) string { return "DELETE FROM t WHERE a = 1 RETURNING " + repIndexed("c{i}, ", n) + "z" }},
 	{"insert_column_list", func(n int) string { return "INSERT INTO t (" + repIndexed("c{i}, ", n) + "z) SELECT * FROM s" }},
-	{"window_partition_list", func(n int) string { return "SELECT sum(a) OVER (PARTITION BY " + repIndexed("c{i}, ", n) + "z ORDER BY a) FROM t" }},
-	{"grouping_sets_list", func(n int) string { return "SELECT a FROM t GROUP BY GROUPING SETS (" + repIndexed("(a, c{i}), ", n) + "())" }},
+	{"window_partition_list", func(n int) string {
+		return "SELECT sum(a) OVER (PARTITION BY " + repIndexed("c{i}, ", n) + "z ORDER BY a) FROM t"
+	}},
+	{"grouping_sets_list", func(n int) string {
+		return "SELECT a FROM t GROUP BY GROUPING SETS (" + repIndexed("(a, c{i}), ", n) + "())"
+	}},
 	{"array_elements", func(n int) string { return "SELECT ARRAY[" + repIndexed("{i}, ", n) + "0]" }},
 	{"match_against_columns", func(n int) string {
 		return "SELECT a FROM t WHERE MATCH (" + repIndexed("c{i}, ", n) + "z) AGAINST ('x' IN BOOLEAN MODE)"
